@@ -10,41 +10,50 @@ package field
 //@   inv e4(self.m) < P
 //@
 //@ func (*Element).Zero
+//@   ct
 //@   props C01 C18
 //@   ensures val(fe) == 0 && result == fe
 //@   modifies fe.m
 //@
 //@ func (*Element).One
+//@   ct
 //@   props C01 C18
 //@   ensures val(fe) == 1 && result == fe
 //@   modifies fe.m
 //@
 //@ func (*Element).Add
+//@   ct
 //@   props C01 C18
 //@   ensures val(fe) == old(val(a)) + old(val(b)) && result == fe
 //@   modifies fe.m
 //@
 //@ func (*Element).Subtract
+//@   ct
 //@   props C01 C18
 //@   ensures val(fe) == old(val(a)) - old(val(b)) && result == fe
 //@   modifies fe.m
 //@
 //@ func (*Element).Negate
+//@   ct
 //@   props C01 C18
 //@   ensures val(fe) == -old(val(a)) && result == fe
 //@   modifies fe.m
 //@
 //@ func (*Element).Multiply
+//@   ct
 //@   props C01 C18
 //@   ensures val(fe) == old(val(a)) * old(val(b)) && result == fe
 //@   modifies fe.m
 //@
 //@ func (*Element).Square
+//@   ct
 //@   props C01 C18
 //@   ensures val(fe) == old(val(a)) * old(val(a)) && result == fe
 //@   modifies fe.m
 //@
 //@ func (*Element).Pow2k
+//@   public k
+//@   ct
 //@   props C01 C18
 //@   panics k == 0
 //@   ensures val(fe) == pow(old(val(a)), pow2(k)) && result == fe
@@ -54,17 +63,21 @@ package field
 //@   modifies fe.m
 //@
 //@ func (*Element).Set
+//@   ct
 //@   props C01 C18
 //@   ensures val(fe) == old(val(a)) && same(fe.m, old(a.m)) && result == fe
 //@   modifies fe.m
 //@
 //@ func (*Element).SetBytes
+//@   ct
 //@   props C01 C06 C18
 //@   ensures val(fe) == fp(os2ip(src)) && result0 == fe
 //@   ensures result1 == ite(os2ip(src) >= P, 1, 0)
 //@   modifies fe.m
 //@
 //@ func (*Element).SetCanonicalBytes
+//@   ct
+//@   declassify call reduceSaturated: rejecting a non-canonical encoding reveals only that the input was not a valid field element
 //@   props C01 C06 C18
 //@   split case os2ip(src) < P
 //@   ensures os2ip(src) < P ==> result0 == fe && result1 == nil && val(fe) == fp(os2ip(src))
@@ -72,23 +85,28 @@ package field
 //@   modifies fe.m
 //@
 //@ func (*Element).MustSetCanonicalBytes
+//@   ct
+//@   declassify call SetCanonicalBytes: validity of the encoding (see SetCanonicalBytes)
 //@   props C01 C18
 //@   panics os2ip(src) >= P
 //@   ensures val(fe) == fp(os2ip(src)) && result == fe
 //@   modifies fe.m
 //@
 //@ func (*Element).getBytes
+//@   ct
 //@   props C01 C06
 //@   ensures os2ip(dst) == lift(old(val(fe)))
 //@   ensures result == dst[0:32]
 //@   modifies dst
 //@
 //@ func (*Element).Bytes
+//@   ct
 //@   props C01 C06 C18
 //@   ensures len(result) == 32 && os2ip(result) == lift(val(fe))
 //@   fresh result
 //@
 //@ func (*Element).ConditionalSelect
+//@   ct
 //@   props C01 C17 C18
 //@   ensures val(fe) == ite(ctrl == 0, old(val(a)), old(val(b))) && result == fe
 //@   ensures ctrl == 0 ==> same(fe.m, old(a.m))
@@ -96,41 +114,50 @@ package field
 //@   modifies fe.m
 //@
 //@ func (*Element).ConditionalNegate
+//@   ct
 //@   props C01 C17 C18
 //@   ensures val(fe) == ite(ctrl == 0, old(val(a)), -old(val(a))) && result == fe
 //@   modifies fe.m
 //@
 //@ func (*Element).Equal
+//@   ct
 //@   props C01 C17
 //@   ensures result == ite(val(fe) == val(a), 1, 0)
 //@   using fm_inj_P(e4(fe.m), e4(a.m))
 //@
 //@ func (*Element).IsZero
+//@   ct
 //@   props C01 C17
 //@   ensures result == ite(val(fe) == 0, 1, 0)
 //@   using fm_zero_P(e4(fe.m))
 //@
 //@ func (*Element).IsOdd
+//@   ct
 //@   props C01 C17
 //@   ensures result == lift(val(fe)) % 2
 //@
 //@ func (*Element).uncheckedSetSaturated
+//@   ct
 //@   props C01
 //@   requires e4(a) < P
 //@   ensures val(fe) == fp(old(e4(a))) && result == fe
 //@   modifies fe.m
 //@
 //@ func NewElementFrom
+//@   ct
 //@   props C01 C18
 //@   ensures val(result) == val(other)
 //@   fresh result
 //@
 //@ func NewElementFromUint64
+//@   ct
 //@   props C01
 //@   ensures val(result) == fp(l0)
 //@   fresh result
 //@
 //@ func NewElementFromCanonicalBytes
+//@   ct
+//@   declassify call SetCanonicalBytes: validity of the encoding (see SetCanonicalBytes)
 //@   props C01 C06 C18
 //@   split case os2ip(src) < P
 //@   ensures os2ip(src) < P ==> result1 == nil && val(result0) == fp(os2ip(src))
@@ -138,16 +165,19 @@ package field
 //@   fresh result0
 //@
 //@ func BytesAreCanonical
+//@   ct
 //@   props C01 C13
 //@   ensures result <==> os2ip(src) < P
 //@
 //@ func reduceSaturated
+//@   ct
 //@   props C01
 //@   ensures result == ite(old(e4(src)) >= P, 1, 0)
 //@   ensures e4(dst) == old(e4(src)) - ite(old(e4(src)) >= P, P, 0)
 //@   modifies dst
 //@
 //@ func (*Element).setShortBytes
+//@   ct
 //@   props C01 C15
 //@   split len(src) in 0..31 else
 //@   panics len(src) >= 32
@@ -155,6 +185,7 @@ package field
 //@   modifies fe.m
 //@
 //@ func (*Element).SetWideBytes
+//@   ct
 //@   props C01 C15
 //@   split len(src) in 32..64 else
 //@   panics len(src) < 32 || len(src) > 64
@@ -162,16 +193,19 @@ package field
 //@   modifies fe.m
 //@
 //@ func (*Element).Invert
+//@   ct
 //@   props C01
 //@   ensures val(z) == pow(old(val(x)), P-2) && result == z
 //@   modifies z.m
 //@
 //@ func (*Element).pow3mod4
+//@   ct
 //@   props C01 C15
 //@   ensures val(z) == pow(old(val(x)), (P-3)/4) && result == z
 //@   modifies z.m
 //@
 //@ func (*Element).SqrtRatio
+//@   ct
 //@   props C01 C15
 //@   ensures result0 == z
 //@   ensures result1 == ite(pow(pow(old(val(u))*pow(old(val(v)),3), (P-3)/4)*old(val(u))*old(val(v)), 2)*old(val(v)) == old(val(u)), 1, 0)
@@ -179,6 +213,7 @@ package field
 //@   modifies z.m
 //@
 //@ func (*Element).Sqrt
+//@   ct
 //@   props C01 C06
 //@   ensures result0 == fe
 //@   ensures result1 == ite(issq(old(val(a))), 1, 0)
